@@ -71,6 +71,9 @@ class Compiler:
 
             code = src[""]
             modules = {k: self._parse(v) for k, v in src.items()}
+            for k, module in modules.items():
+                # line numbers of a node refer to the file the node comes from
+                module._source_lines = src[k].splitlines()
             self.tree = modules.pop("")
 
             time("parse")
